@@ -31,7 +31,7 @@ ASSUMPTIONS = [
     "shapes of read results belong to C03; reads compare kind and element list only",
 ]
 TRIVIAL_TAGS = ["error"]
-STALL = 60.0
+STALL = 120.0
 
 KINDS = ms.ALL_KINDS
 OPS = ["set", "add", "sub", "mul", "div"]
